@@ -55,8 +55,8 @@ func runC12(ctx *Ctx, idx int) {
 	}
 	var ks KeySet
 	dir := directedKeySets()
-	if idx < len(dir) {
-		ks = dir[idx]
+	if idx < 2*len(dir) {
+		ks = dir[idx/2] // each directed set once dense (even idx), once sparse (odd idx)
 	} else {
 		ks = genKeySet(r, scale)
 	}
